@@ -217,4 +217,48 @@ example : let f : TFile := ⟨str "A", str "BAS", 0, 0, [[1, 2, 3], [], [60]]⟩
   simp only [List.mem_cons, List.mem_nil_iff, or_false] at hb
   rcases hb with rfl | rfl | rfl | rfl | rfl <;> exact ⟨by decide, by decide, by decide⟩
 
+
+/-! ### idle stretches that hold anything — 3C included — except the start-of-block pattern -/
+
+/-- **C08 (blocks, weakest form of "idle gaps of any length")**: the stretches before the first block, between the blocks and
+    after the last one may hold *any* bytes — 3C, 5A, runs of 01, `01 01 01 3C` not followed by 5A, `3C 5A` behind fewer than
+    three 01 — as long as the five-byte start-of-block pattern `01 01 01 3C 5A` does not occur in them (`Spec.K7.idle`; if it
+    did, a block would begin there).  What follows the last block is that block's idle stretch. -/
+theorem read_blocks_any_idle (pre : Bytes) (bs : List Spec.K7.WBlock) (hpre : Spec.K7.idle pre = true) (hwf : ∀ b ∈ bs, b.wfIdle) :
+    readAll (Spec.K7.render pre bs) = bs.map (fun b => Spec.K7.frame b.ty b.payload) := by
+  unfold readAll Spec.K7.render
+  exact readAllFuel_render_idle read_marker bs pre _ hpre hwf (by have := render_length_ge bs; simp only [List.length_append]; omega)
+
+/-- the earlier hypothesis (no 3C at all in a gap) is a special case -/
+theorem wf_implies_wfIdle (b : Spec.K7.WBlock) (h : b.wf) : b.wfIdle := ⟨h.1, h.2.1, idle_of_no_3C _ h.2.2⟩
+
+/-- **C08 (files, any idle stretches)**: `third_party_tape_read_exactly` with idle stretches that may hold any bytes except
+    the start-of-block pattern -/
+theorem third_party_tape_any_idle_read_exactly (pre : Bytes) (bs : List Spec.K7.WBlock) (fs : List TFile)
+    (hpre : Spec.K7.idle pre = true) (hwf : ∀ b ∈ bs, b.wfIdle)
+    (hfiles : bs.map (fun b => Spec.K7.frame b.ty b.payload) = fs.flatMap TFile.frames)
+    (hn : ∀ f ∈ fs, NameOK f.name f.ext) (v : Bool) (archive : Str) (into : Option Str)
+    (hk : ∀ f ∈ fs, samePath (pathJoin (targetDirOf archive into) f.path) archive = false) :
+    (extract v archive into (Spec.K7.render pre bs)).status = .ret 0
+    ∧ (extract v archive into (Spec.K7.render pre bs)).writes
+        = fs.map (fun f => (pathJoin (targetDirOf archive into) f.path, f.chunks.flatten))
+    ∧ (extract v archive into (Spec.K7.render pre bs)).out = readLines v 0 fs
+    ∧ (enumerate v (Spec.K7.render pre bs)).status = .ret 0
+    ∧ (enumerate v (Spec.K7.render pre bs)).out = readLines v 0 fs := by
+  have hread := read_blocks_any_idle pre bs hpre hwf
+  rw [hfiles] at hread
+  obtain ⟨sx, ex, hwx, hox⟩ := readLoop_tfiles (targetDirOf archive into) fs { l := { verbose := v }, keep := some archive } hn hk
+  rw [← hread] at ex
+  have hl := list_extract_agree_dir v (targetDirOf archive into) _ (some archive) (by rw [ex])
+  refine ⟨?_, ?_, ?_, hl.1, ?_⟩
+  · simp only [extract]; rw [ex]
+  · simp only [extract]; rw [ex]; simpa using hwx
+  · simp only [extract]; rw [ex]; simpa using hox
+  · rw [hl.2, ex]; simpa using hox
+
+/-- non-vacuity: gaps holding 3C, 3C 5A behind two 01 only, and 01 01 01 3C without 5A are idle; the pattern itself is not -/
+example : Spec.K7.idle [60, 1, 1, 60, 90, 0, 1, 1, 1, 60, 0, 90, 1, 1, 1] = true ∧ Spec.K7.idle [0, 1, 1, 1, 60, 90] = false := by decide
+example : readAll (Spec.K7.render [60, 90, 1, 1, 60, 90] [⟨3, 0, [1, 2], [1, 1, 1, 60, 7, 60, 90]⟩, ⟨4, 255, [], [60]⟩])
+    = [Spec.K7.frame 0 [1, 2], Spec.K7.frame 255 []] := by decide
+
 end Moto.C08
